@@ -49,6 +49,9 @@ func genC04(e *emitter, tier string) {
 					a := smallT("f32", append(append([]int{}, ba...), m, kk), k)
 					b := smallT("f32", append(append([]int{}, bb...), kk, n), k+1)
 					e.emit(opCase("matmul-batch", "MatMul", nil, []*TJ{a, b}, nil))
+					if k%3 == 0 { // float64 takes its own kernels
+						e.emit(opCase("matmul-batch-f64", "MatMul", nil, []*TJ{smallT("f64", a.Shape, k), smallT("f64", b.Shape, k+1)}, nil))
+					}
 				}
 			}
 			// inner mismatch
@@ -70,6 +73,12 @@ func genC04(e *emitter, tier string) {
 				e.emit(opCase("matmul-vec", "MatMul", nil, []*TJ{smallT("f32", append(append([]int{}, b...), n, kk), k), v}, nil))
 			}
 			e.emit(opCase("matmul-bad", "MatMul", nil, []*TJ{v, smallT("f32", []int{kk + 1}, k)}, nil))
+			v64 := smallT("f64", []int{kk}, k)
+			e.emit(opCase("matmul-vec-f64", "MatMul", nil, []*TJ{v64, smallT("f64", []int{kk}, k)}, nil))
+			e.emit(opCase("matmul-vec-f64", "MatMul", nil, []*TJ{v64, smallT("f64", []int{kk, n}, k)}, nil))
+			e.emit(opCase("matmul-vec-f64", "MatMul", nil, []*TJ{smallT("f64", []int{n, kk}, k), v64}, nil))
+			e.emit(opCase("matmul-vec-f64", "MatMul", nil, []*TJ{v64, smallT("f64", []int{2, kk, n}, k)}, nil))
+			e.emit(opCase("matmul-vec-f64", "MatMul", nil, []*TJ{smallT("f64", []int{1, 2, n, kk}, k), v64}, nil))
 		}
 	}
 	// element types
@@ -181,6 +190,20 @@ func genC04(e *emitter, tier string) {
 		e.emit(opCase("scaler", "Scaler", []Attr{{Name: "offset", Type: "floats", Fs: off}, {Name: "scale", Type: "floats", Fs: sc}}, []*TJ{smallT("f32", s, k)}, nil))
 		e.emit(opCase("scaler", "Scaler", []Attr{{Name: "scale", Type: "floats", Fs: []float64{2}}, {Name: "offset", Type: "floats", Fs: []float64{1}}}, []*TJ{smallT("f32", s, k)}, nil))
 		e.emit(opCase("scaler-bad", "Scaler", []Attr{{Name: "offset", Type: "floats", Fs: append(off, 1)}, {Name: "scale", Type: "floats", Fs: sc}}, []*TJ{smallT("f32", s, k)}, nil))
+		// every combination of list lengths (1 = one value for all features, C = per feature, C+1 = invalid)
+		for _, lo := range []int{1, c, c + 1} {
+			for _, ls := range []int{1, c, c + 1} {
+				o2 := make([]float64, lo)
+				s2 := make([]float64, ls)
+				for i := range o2 {
+					o2[i] = float64(i + 1)
+				}
+				for i := range s2 {
+					s2[i] = float64(3 - 2*i)
+				}
+				e.emit(opCase("scaler-lengths", "Scaler", []Attr{{Name: "offset", Type: "floats", Fs: o2}, {Name: "scale", Type: "floats", Fs: s2}}, []*TJ{smallT("f32", s, k+1)}, nil))
+			}
+		}
 	}
 	e.emit(opCase("scaler-bad", "Scaler", []Attr{{Name: "offset", Type: "floats", Fs: []float64{1}}}, []*TJ{smallT("f32", []int{2}, 1)}, nil))
 	e.emit(opCase("scaler-dtypes", "Scaler", []Attr{{Name: "offset", Type: "floats", Fs: []float64{1}}, {Name: "scale", Type: "floats", Fs: []float64{2}}}, []*TJ{smallT("f64", []int{2}, 1)}, nil))
